@@ -12,7 +12,7 @@ TEXTS = {
               "byte-for-byte with a position-dependent stream, and in message mode with the chunk boundaries. Raw core in stream and message mode (E1) "
               "and real sessions for all 16 cipher settings x FEC ratios x windows x MTU x nodelay x stream/write-delay (E2), under generated "
               "drop/delay/duplicate/reorder/outage scripts in both directions; TestC01FreeRun repeats the session runs with the lock-step loop switched off (writer, reader, read loops, post-processors, scheduler runner and one goroutine per datagram run concurrently in virtual time; thorough also under -race). Holds on everything generated; not a proof."),
-  level_note=E1 + ". " + E2 + ". FEC ratio equal at both ends or off (unequal is C16). Raw message mode only sends messages of <= min(255, peer rcv_wnd) fragments; raw stream writes <= 200 mss (the partially-appended refused write of a >255-segment stream Send is outside the generated domain).",
+  level_note=E1 + ". " + E2 + ". FEC ratio equal at both ends or off (unequal is C16). Raw message mode only sends messages of <= min(255, peer rcv_wnd) fragments; raw stream writes <= 200 mss (the partially-appended refused write of a >255-segment stream Send is outside the generated domain). Plus E7 (TestC01RealUDP): real sessions over real loopback UDP sockets (recvmmsg/sendmmsg paths, owned sockets, IPv4/IPv6) with a fate-applying relay, in real time with schedule-insensitive oracles; a transfer over its 30 s budget is inconclusive.",
   rule=("Case = (configuration, fault script, application script) drawn by rapid; distinct by hash of that descriptor. Non-trivial = the run contained >=1 retransmitted sn "
         "AND >=1 of {duplicate delivered, out-of-order delivery into the receive heap, FEC-recovered packet fed to the core, read smaller than the pending message}.")),
  "C02": dict(
@@ -77,7 +77,7 @@ TEXTS = {
  "C11": dict(
   level_text=("1-8 clients (some sharing an IP) on one listener, each with its own fault script and an (address, conv)-keyed payload stream; reconnects from the same address with a new conv; late Accept; injected foreign datagrams: replays of genuine datagrams from a never-seen address, random bytes from strangers and (with a cipher) from known addresses, "
               "forged conv from the right address with sn != 0 (digest + table must not change), genuine server datagrams sent to a dialled client from a third address (digest must not change). Oracle: Accept returns each incarnation exactly once with the right addr/conv, every accepted session reads exactly its own peer's stream and completes. TestC11Backlog: 120-150 new peers against the 128-deep accept backlog, accepted late: table and backlog never exceed 128, every peer is accepted exactly once as room appears, each session holds its own peer's bytes."),
-  level_note=E2 + ". Stale datagrams of the old conversation are let die out (500 ms) before a reconnect so that exactly-once can be asserted; the two documented restart histories (stale sn=0, server-side Close) are not generated.",
+  level_note=E2 + ". Stale datagrams of the old conversation are let die out (500 ms) before a reconnect so that exactly-once can be asserted; the two documented restart histories (stale sn=0, server-side Close) are not generated. Plus E7 (TestC11RealUDP): real sessions over real loopback UDP sockets (recvmmsg/sendmmsg paths, owned sockets, IPv4/IPv6) with a fate-applying relay, in real time with schedule-insensitive oracles; a transfer over its 30 s budget is inconclusive.",
   rule="Non-trivial = >=3 concurrent streams interleaving at the listener AND >=1 injected foreign datagram that passed the integrity gate."),
  "C12": dict(
   level_text=("Metamorphic: each generated lossy run of two raw cores is executed unshifted and with drawn offsets (sn of each direction, clock) biased so that 2^32 and 2^31 fall inside the transfer; delivered data, statistics and the datagram traces normalised by the offsets must be identical at identical virtual times. "
@@ -97,7 +97,7 @@ TEXTS = {
  "C15": dict(
   level_text=("Close scripts: point in a generated lossy history (idle, mid-transfer, full queues with a stalled reader, blocked callers, peers the application never accepts) x permutation of {client session, server session, listener, client socket, server socket} x gaps. "
               "After 10 virtual minutes: census of goroutines still belonging to the bubble (stacks name the leaked function), no scheduler callback pending, no application call blocked. Pool sanitizer (hook): quarantine+poison detects double recycle and write-after-recycle; LIFO reuse makes a stale owner bleed into the next packet, caught by C01's content oracle and the wire decoder. TestC15PoolAutoTune runs the FEC decoder's auto-tune path (differing ratios incl. same total / different split, with loss) under the quarantine sanitizer."),
-  level_note=E2 + ". Pool sanitizer = tag-guarded call-outs in bufferpool.go; read-after-recycle is only visible when the poisoned bytes reach the wire or the reader.",
+  level_note=E2 + ". Pool sanitizer = tag-guarded call-outs in bufferpool.go; read-after-recycle is only visible when the poisoned bytes reach the wire or the reader. Plus E7 (TestC15RealUDP): real sessions over real loopback UDP sockets (recvmmsg/sendmmsg paths, owned sockets, IPv4/IPv6) with a fate-applying relay, in real time with schedule-insensitive oracles; a transfer over its 30 s budget is inconclusive.",
   rule="Close cases non-trivial = closed mid-transfer, with blocked callers, or with un-accepted sessions; pool cases = >=1000 Get calls and >=1 retransmission."),
  "C16": dict(
   level_text=("Generated (sender ratio, receiver ratio incl. the lazy 1/1 decoder, start id anywhere incl. mid-group and near the wrap) with well-formed KCP payloads of a common conv; phase 1 arbitrary loss/dup/reorder, phase 2 an uninterrupted run that must make the decoder adopt the sender's ratio within 258+2(d+p) packets, phase 3 one loss per group must be recovered and the ratio must stay. "
